@@ -21,8 +21,12 @@ import (
 //	     A = simplifier(kind,t1,k1) on the line (L: .LineString, R: .Ring)
 //	     B = the same simplifier run again on a copy of A        (idempotence)
 //	     C = simplifier(kind,t2,k2) on a fresh copy of the input (nesting partner, t1 <= t2, k2 <= k1)
-//	long  — same format and runs as line (vertex lists of 32/64/128 vertices; the driver judges them by the
-//	        Float twin and the structural clauses only)
+//	long  — same format and runs as line (vertex lists of 12..200 vertices on the 3x3 grid or a +-1 walk)
+//	deep  — same format and runs as line: shapes that force the deepest Douglas-Peucker nesting, the most
+//	        heap traffic and the longest kept / dropped runs (spirals, zig-zags, sawteeth, collinear and
+//	        all-equal lists, both directions, open and closed), 12 .. a few thousand vertices.
+//	        Lists above 24 vertices are judged by the Float twin, the structural / count / idempotence /
+//	        nesting clauses and the quantitative clause in float64 (+ exact rationals within a work budget)
 //	seq <kind> <t> <k> <m> (<L|R> <n pts>)*m  =>  <r1> | … | <rm>
 //	     ONE simplifier value, built once, run on the m vertex lists in order (L: .LineString, R: .Ring):
 //	     anything a simplifier remembers from one call to the next is visible here
@@ -79,7 +83,7 @@ func runLineOn(s orb.Simplifier, lr string, ps []orb.Point) []orb.Point {
 func runC12(op string, in []string) string {
 	return guard(func() string {
 		switch op {
-		case "line", "long":
+		case "line", "long", "deep":
 			r := &tokReader{t: in}
 			kind := r.next()
 			t1 := r.f()
@@ -571,7 +575,11 @@ func c12Long(c *Ctx) {
 	}
 	specs := []sp{{"dp", 0, 0.5}, {"dp", 0.5, 1}, {"dp", 1, 1.5}, {"dp", 1.5, 2}, {"rs", 0, 1}, {"rs", 2, 4}, {"rd", 1, 2},
 		{"vs", 0, 0.25}, {"vs", 0.25, 0.5}, {"vs", 0.5, 1}, {"vs", 1, 2}, {"vs", 2, math.MaxFloat64}, {"vs", math.MaxFloat64, math.MaxFloat64}}
-	for _, n := range []int{32, 64, 128} {
+	sizes := []int{32, 64, 128}
+	for i := 0; i < 3; i++ { // and sizes drawn from the whole range (not only powers of two)
+		sizes = append(sizes, 12+r.Intn(189))
+	}
+	for _, n := range sizes {
 		for i := 0; i < per && !c.Exhausted(); i++ {
 			lr := []string{"L", "R"}[r.Intn(2)]
 			ps := c12LongLine(r, n, lr == "R" && r.Intn(4) != 0 || lr == "L" && r.Intn(5) == 0)
@@ -586,6 +594,323 @@ func c12Long(c *Ctx) {
 			}
 			c.Case("long", s.kind+" "+fb(s.t1)+" "+strconv.Itoa(k1)+" "+fb(s.t2)+" "+strconv.Itoa(k2)+" "+lr+" "+spts(ps))
 		}
+	}
+}
+
+// ---- the deep family ----
+
+const c12DeepShapes = 12
+
+// c12DeepLine: n vertices of a shape that drives one of the simplifiers to an extreme.
+//
+//	0 inward square spiral, radius x q per vertex (Douglas-Peucker: vertex i+1 is farthest from the chord
+//	  (i, last), one stack pair per vertex; Visvalingam: areas shrink, every push climbs to the root)
+//	1 inward square spiral on integers (radius n-i): the same, exact arithmetic
+//	2 zig-zag (i, +-i): amplitude grows with i      3 zig-zag with geometric amplitude q^i
+//	4 sawtooth (i, i mod k) of equal teeth (ties: the first maximum wins)
+//	5 all collinear, monotone                        6 all collinear, back and forth with shrinking reach
+//	7 all equal / two or three alternating points    8 parabola (i, i^2): convex, everything kept at 0
+//	9 staircase (collinear pairs)                    10 +-1 lattice walk    11 3x3 grid points
+//
+// rev reverses the list (growing instead of shrinking: left-nested instead of right-nested splits).
+func c12DeepLine(r *rand.Rand, n, shape int, rev, closed bool) []orb.Point {
+	ps := make([]orb.Point, n)
+	dirs := []orb.Point{{1, 0}, {0, 1}, {-1, 0}, {0, -1}}
+	switch shape {
+	case 0:
+		q := []float64{0.99, 0.95, 0.999, 0.9, 0.75}[r.Intn(5)]
+		rad := []float64{1, 1, 1000, 1e6}[r.Intn(4)]
+		cx, cy := 0.0, 0.0
+		if r.Intn(3) == 0 {
+			cx, cy = float64(r.Intn(9)-4), float64(r.Intn(9)-4)
+		}
+		for i := range ps {
+			d := dirs[i%4]
+			ps[i] = orb.Point{cx + d[0]*rad, cy + d[1]*rad}
+			rad *= q
+		}
+	case 1:
+		for i := range ps {
+			d := dirs[i%4]
+			ps[i] = orb.Point{d[0] * float64(n-i), d[1] * float64(n-i)}
+		}
+	case 2:
+		for i := range ps {
+			y := float64(i)
+			if i%2 == 1 {
+				y = -y
+			}
+			ps[i] = orb.Point{float64(i), y}
+		}
+	case 3:
+		q := []float64{1.01, 1.05, 1.001, 1.5}[r.Intn(4)]
+		a := 1.0
+		for i := range ps {
+			y := a
+			if i%2 == 1 {
+				y = -y
+			}
+			ps[i] = orb.Point{float64(i), y}
+			if a*q < 1e100 {
+				a *= q
+			}
+		}
+	case 4:
+		k := []int{2, 2, 3, 5, 17}[r.Intn(5)]
+		amp := []float64{1, 1, 0.5, 7}[r.Intn(4)]
+		for i := range ps {
+			ps[i] = orb.Point{float64(i), amp * float64(i%k)}
+		}
+	case 5:
+		dx, dy := float64(r.Intn(5)-2), float64(r.Intn(5)-2)
+		if dx == 0 && dy == 0 {
+			dx = 1
+		}
+		for i := range ps {
+			ps[i] = orb.Point{dx * float64(i), dy * float64(i)}
+		}
+	case 6:
+		dx, dy := float64(r.Intn(3)), float64(r.Intn(3))
+		if dx == 0 && dy == 0 {
+			dx = 1
+		}
+		for i := range ps {
+			k := float64(n - i)
+			if i%2 == 1 {
+				k = -k
+			}
+			ps[i] = orb.Point{dx * k, dy * k}
+		}
+	case 7:
+		pool := []orb.Point{{float64(r.Intn(5) - 2), float64(r.Intn(5) - 2)}, {3, 4}, {-1, 2.5}}
+		m := 1 + r.Intn(3)
+		for i := range ps {
+			ps[i] = pool[i%m]
+		}
+	case 8:
+		for i := range ps {
+			ps[i] = orb.Point{float64(i), float64(i) * float64(i)}
+		}
+	case 9:
+		for i := range ps {
+			ps[i] = orb.Point{float64(i / 2), float64((i + 1) / 2)}
+		}
+	case 10:
+		for i := range ps {
+			if i > 0 {
+				ps[i] = orb.Point{ps[i-1][0] + float64(r.Intn(3)-1), ps[i-1][1] + float64(r.Intn(3)-1)}
+			}
+		}
+	default:
+		for i := range ps {
+			ps[i] = orb.Point{float64(r.Intn(3)), float64(r.Intn(3))}
+		}
+	}
+	if rev {
+		for i, j := 0, n-1; i < j; i, j = i+1, j-1 {
+			ps[i], ps[j] = ps[j], ps[i]
+		}
+	}
+	if r.Intn(4) == 0 && n > 4 { // a few repeated vertices
+		for k := 0; k < 3; k++ {
+			i := 1 + r.Intn(n-1)
+			ps[i] = ps[i-1]
+		}
+	}
+	if closed && n >= 2 {
+		ps[n-1] = ps[0]
+	}
+	return ps
+}
+
+// c12DeepThresholds: a pair t1 <= t2 out of {0, tiny, quantities the algorithm compares against at several
+// places of the list (so that a prefix / a suffix / every other vertex survives), above everything}.
+func c12DeepThresholds(r *rand.Rand, kind string, ps []orb.Point) (float64, float64) {
+	n := len(ps)
+	cand := []float64{0, 0}
+	at := func(f float64) int {
+		i := int(f * float64(n-1))
+		if i < 0 {
+			i = 0
+		}
+		if i > n-1 {
+			i = n - 1
+		}
+		return i
+	}
+	for _, f := range []float64{0.1, 0.25, 0.5, 0.75, 0.9, r.Float64()} {
+		i := at(f)
+		var v float64
+		switch kind {
+		case "dp":
+			j := i + 1
+			if j > n-1 {
+				j = n - 1
+			}
+			v = math.Sqrt(planar.DistanceFromSegmentSquared(ps[i], ps[n-1], ps[j]))
+			if r.Intn(2) == 0 {
+				v = math.Sqrt(planar.DistanceFromSegmentSquared(ps[0], ps[n-1], ps[i]))
+			}
+		case "rs":
+			v = planar.DistanceSquared(ps[i], ps[at(f+0.01)])
+			if r.Intn(2) == 0 {
+				v = planar.DistanceSquared(ps[0], ps[i])
+			}
+		case "rd":
+			v = planar.Distance(ps[i], ps[at(f+0.01)])
+			if r.Intn(2) == 0 {
+				v = planar.Distance(ps[0], ps[i])
+			}
+		default:
+			a, b, c := ps[at(f-0.001)], ps[i], ps[at(f+0.001)]
+			if i > 0 && i < n-1 {
+				a, c = ps[i-1], ps[i+1]
+			}
+			v = math.Abs((b[0]-a[0])*(c[1]-a[1])-(b[1]-a[1])*(c[0]-a[0])) / 2
+		}
+		if !math.IsNaN(v) && !math.IsInf(v, 0) {
+			cand = append(cand, v, v)
+			if r.Intn(3) == 0 {
+				cand = append(cand, v/2, v*1.5)
+			}
+		}
+	}
+	cand = append(cand, 1e-9, 0.5, 1, 2)
+	big := 1e300
+	if kind == "vs" {
+		big = math.MaxFloat64
+	}
+	cand = append(cand, big)
+	t1 := cand[r.Intn(len(cand))]
+	t2 := cand[r.Intn(len(cand))]
+	if r.Intn(6) == 0 {
+		t2 = t1
+	}
+	if t2 < t1 {
+		t1, t2 = t2, t1
+	}
+	return t1, t2
+}
+
+func c12DeepCase(c *Ctx, kind string, n, shape int) {
+	r := c.Rng
+	lr := []string{"L", "R"}[r.Intn(2)]
+	closed := lr == "R" && r.Intn(3) != 0 || lr == "L" && r.Intn(6) == 0
+	ps := c12DeepLine(r, n, shape, r.Intn(3) == 0, closed)
+	t1, t2 := c12DeepThresholds(r, kind, ps)
+	k1, k2 := 0, 0
+	if kind == "vs" {
+		k1 = []int{0, 0, 0, 2, 3, 4, n / 2, n - 1, n, 2 + r.Intn(n)}[r.Intn(10)]
+		if r.Intn(4) == 0 { // keep-N cutting the removal order
+			t1, t2 = math.MaxFloat64, math.MaxFloat64
+			if k1 == 0 {
+				k1 = 2 + r.Intn(n)
+			}
+		}
+		k2 = k1
+		if k1 > 2 && r.Intn(2) == 0 {
+			k2 = 2 + r.Intn(k1-1)
+		}
+	}
+	c.Case("deep", kind+" "+fb(t1)+" "+strconv.Itoa(k1)+" "+fb(t2)+" "+strconv.Itoa(k2)+" "+lr+" "+spts(ps))
+}
+
+// c12DeepSize: a size out of the whole range (log-uniform: small sizes are cheap, large ones rare)
+func c12DeepSize(r *rand.Rand, max int) int {
+	return int(12 * math.Pow(float64(max)/12, r.Float64()))
+}
+
+// c12Deep: (a) every shape x every simplifier kind at the fixed sizes (sharded), (b) sizes drawn from the
+// whole range 12..max with random shapes, (c) the deepest Douglas-Peucker shapes at the sizes just
+// around every power of two (a stack / heap / scratch buffer of fixed capacity 2^k overflows at
+// 2^(k-1)+2 vertices, or 2^k+1, depending on what it counts), (d) the same shapes through seq (ONE
+// simplifier value over a short, a long and a short list: scratch space kept between calls), through
+// the generic entry point (polygon / multi line string / collection members) and through mvt.
+func c12Deep(c *Ctx, ctr *int) {
+	r := c.Rng
+	kinds := []string{"dp", "rs", "rd", "vs"}
+	fixed := []int{257, 300, 513, 1000}
+	max, extra := 2200, 60
+	if c.Tier == "thorough" {
+		fixed = []int{130, 257, 300, 513, 700, 1000, 1025, 1500, 2049, 3000}
+		max, extra = 4500, 400
+	}
+	for _, n := range fixed {
+		for shape := 0; shape < c12DeepShapes; shape++ {
+			for _, kind := range kinds {
+				*ctr++
+				if !c.Mine(*ctr) || c.Exhausted() {
+					continue
+				}
+				c12DeepCase(c, kind, n, shape)
+			}
+		}
+	}
+	for i := 0; i < extra && !c.Exhausted(); i++ {
+		c12DeepCase(c, kinds[r.Intn(4)], c12DeepSize(r, max), r.Intn(c12DeepShapes))
+	}
+	// around the powers of two, Douglas-Peucker at threshold 0 and a tiny one on the deepest shapes,
+	// Visvalingam keeping everything / nothing
+	for p := 16; p <= max; p *= 2 {
+		for _, n := range []int{p/2 + 1, p/2 + 2, p, p + 1, p + 2} {
+			*ctr++
+			if n < 12 || n > max || !c.Mine(*ctr) || c.Exhausted() {
+				continue
+			}
+			shape := []int{0, 1, 6, 3}[r.Intn(4)]
+			ps := c12DeepLine(r, n, shape, false, false)
+			tiny := []float64{1e-300, 1e-12, 5e-324}[r.Intn(3)]
+			c.Case("deep", "dp "+fb(0)+" 0 "+fb(tiny)+" 0 L "+spts(ps))
+			k := []int{0, 2, n - 1}[r.Intn(3)]
+			c.Case("deep", "vs "+fb(0)+" "+strconv.Itoa(k)+" "+fb(math.MaxFloat64)+" "+strconv.Itoa(k)+" L "+spts(ps))
+		}
+	}
+	// other entry points
+	reps := 2
+	if c.Tier == "thorough" {
+		reps = 12
+	}
+	for i := 0; i < reps && !c.Exhausted(); i++ {
+		kind := kinds[r.Intn(4)]
+		n := 130 + r.Intn(500)
+		if i%2 == 1 {
+			n = c12DeepSize(r, max/2)
+		}
+		shape := []int{0, 1, 2, 3, 4, 6, 8}[r.Intn(7)]
+		long := c12DeepLine(r, n, shape, r.Intn(3) == 0, false)
+		short := c12DeepLine(r, 3+r.Intn(8), shape, false, false)
+		t, _ := c12DeepThresholds(r, kind, long)
+		if r.Intn(2) == 0 {
+			t = 0
+		}
+		k := 0
+		if kind == "vs" {
+			k = []int{0, 0, 2, 3, n / 2}[r.Intn(5)]
+		}
+		spec := kind + " " + fb(t) + " " + strconv.Itoa(k)
+		// ONE simplifier value: short, long, short, long again (and the long one first)
+		c.Case("seq", spec+" 4 L "+spts(short)+" L "+spts(long)+" R "+spts(short)+" R "+spts(long))
+		c.Case("seq", spec+" 2 R "+spts(long)+" L "+spts(short))
+		// members of every kind that holds vertex lists
+		ring := clonePts(long)
+		ring[len(ring)-1] = ring[0]
+		hole := []orb.Point{{0, 0}, {0.25, 0}, {0.25, 0.25}, {0, 0}}
+		var g orb.Geometry
+		switch r.Intn(4) {
+		case 0:
+			g = orb.Polygon{orb.Ring(ring), orb.Ring(hole), orb.Ring(clonePts(ring))}
+		case 1:
+			g = orb.MultiLineString{orb.LineString(short), orb.LineString(long), orb.LineString(ring)}
+		case 2:
+			g = orb.MultiPolygon{{orb.Ring(hole)}, {orb.Ring(ring), orb.Ring(clonePts(ring))}}
+		default:
+			g = orb.Collection{orb.LineString(long), orb.Ring(ring), orb.Point{1, 2}, orb.Collection{orb.LineString(clonePts(long))}}
+		}
+		c.Case("geom", spec+" "+gs(g))
+		if r.Intn(2) == 0 {
+			c.Case("alias", spec+" "+gs(g))
+		}
+		c.Case("mvt", spec+" 1 2 LS "+spts(long)+" "+gs(g))
 	}
 }
 
@@ -678,8 +1003,10 @@ func genC12(c *Ctx) {
 		c12Grid(c, 3, 5, &ctr)
 		c12Grid(c, 4, 4, &ctr)
 	}
-	// long lines (32 / 64 / 128 vertices)
+	// long lines (12 .. 200 vertices)
 	c12Long(c)
+	// deep family (12 .. a few thousand vertices)
+	c12Deep(c, &ctr)
 	// random family
 	modes := []CoordMode{CoordSmallInt, CoordSmallInt, CoordInt, CoordHalf, CoordFloat, CoordFloat}
 	for k := 0; k < c.Budget && !c.Exhausted(); k++ {
